@@ -80,6 +80,10 @@ func scanSpecDirs(dirs []string, scanFn scanSpecFunc) error {
 				if errors.Is(err, fs.ErrNotExist) {
 					return nil
 				}
+				if path == dir {
+					// an unusable Spec directory must not hide the other ones
+					return nil
+				}
 				return err
 			}
 			// first call from Walk is for dir itself, others we skip
